@@ -12,6 +12,7 @@ import (
 	"strings"
 
 	"github.com/zitadel/oidc/v3/pkg/oidc"
+	"github.com/zitadel/oidc/v3/pkg/op"
 
 	"verif/internal/ev"
 	"verif/internal/opdrv"
@@ -43,7 +44,11 @@ type opLog struct {
 	Result string `json:"result"`
 }
 
-var clientIDs = []string{"web", "web2", "post", "native", "jwt"}
+var clientIDs = []string{"web", "web2", "post", "native", "jwt", "nativesec", "uasec"}
+
+// oddly registered clients (DESIGN 6a): a native and a user-agent application that nevertheless hold a secret.
+// Success is grey for them; refusals (no / wrong secret, another client's code, ...) are as strict as for anybody.
+var oddClients = map[string]bool{"nativesec": true, "uasec": true}
 
 func setup(w *opdrv.World) map[string]*vclient.Client {
 	cl := opdrv.StdClients(w.Store)
@@ -53,6 +58,15 @@ func setup(w *opdrv.World) map[string]*vclient.Client {
 	cl["post"].Redirects = []string{opdrv.PostRedirect, "https://post.example/cb2"}
 	cl["native"].Redirects = []string{opdrv.NativeRedirect, "com.example.native:/cb2"}
 	cl["jwt"].Redirects = []string{opdrv.JWTRedirect, "https://jwt.example/cb2"}
+	ns := vclient.Confidential("nativesec", "secret-nativesec", "http://127.0.0.1:7000/cb", "com.example.nativesec:/cb2")
+	ns.AppType = op.ApplicationTypeNative
+	w.Store.AddClient(ns)
+	cl["nativesec"] = ns
+	ua := vclient.Confidential("uasec", "secret-uasec", "https://uasec.example/cb", "https://uasec.example/cb2")
+	ua.AppType = op.ApplicationTypeUserAgent
+	ua.Auth = oidc.AuthMethodPost
+	w.Store.AddClient(ua)
+	cl["uasec"] = ua
 	return cl
 }
 
@@ -219,9 +233,20 @@ func runHistory(run *ev.Run, caseIdx int, router int) {
 				auth = opdrv.IDOnly(pc.ID)
 				credValid = pc.Auth == oidc.AuthMethodNone
 			}
-			uriKind := pick(r, "same", "same", "same", "other", "absent")
+			uriKind := pick(r, "same", "same", "same", "same", "other", "absent", "case", "slash", "query")
 			uri := m.uri
 			switch uriKind {
+			case "case":
+				// the same URI but for the letter case of its last path segment
+				if i := strings.LastIndexByte(uri, '/'); i >= 0 && strings.ToUpper(uri[i:]) != uri[i:] {
+					uri = uri[:i] + strings.ToUpper(uri[i:])
+				} else {
+					uriKind = "same"
+				}
+			case "slash":
+				uri += "/"
+			case "query":
+				uri += "?x=1"
 			case "other":
 				for _, u := range cl[m.client].Redirects {
 					if u != m.uri {
@@ -345,6 +370,11 @@ func runHistory(run *ev.Run, caseIdx int, router int) {
 					run.Count("outcome", "grey_refused_after_failed_attempt")
 					continue
 				}
+				if oddClients[m.client] {
+					run.Count("outcome", "grey_oddly_registered_client_refused")
+					m.failed = true
+					continue
+				}
 				violated("must-succeed", "a fully conforming first exchange was refused: "+resp.Brief())
 				return
 			}
@@ -384,7 +414,7 @@ func main() {
 		"after a failed attempt on a code later success is grey (burning on failure would be legal)",
 		"one exchange in eight runs under an injected storage-method fault; its own answer is C10's business, but a code that yielded tokens under the fault counts as consumed and a later replay must be refused")
 	run.Mandatory("success:provider", "success:legacy")
-	n := run.N(1500, 40000)
+	n := run.N(5000, 60000)
 	if rc := run.ReplayCase(); rc >= 0 {
 		runHistory(run, int(rc), 0)
 		runHistory(run, int(rc), 1)
